@@ -119,6 +119,7 @@ class Universe:
         self.events = []              # index eid-1 -> event object (keeps them alive)
         self.eid = {}                 # id(event) -> eid
         self.stack = []               # active handler segments: (eid, hid)
+        self.dstack = []              # dispatches in progress: (id(event object), eid)
         self.comps = {}
         self.handlers = {}            # hid -> bound handler object currently known
         self.hfuncs = {}
@@ -285,6 +286,14 @@ class Universe:
             self.eid[k] = len(self.events)
         return self.eid[k]
 
+    def _eid_dispatching(self, ev):
+        """the id under which this event object is being dispatched (an event object that a handler fires again -
+        op `refire` - gets a new id for the new firing; the dispatch in progress keeps the old one)"""
+        for k, e in reversed(self.dstack):
+            if k == id(ev):
+                return e
+        return self._eid(ev)
+
     def chan_str(self, ch):
         if isinstance(ch, str):
             return ch
@@ -299,6 +308,11 @@ class Universe:
     def _tracer(self, what, manager, event, channels, extra):
         if what == 'fire':
             new = id(event) not in self.eid
+            if not new and getattr(event, '_u_refire', False):
+                # the same event object fired again: a new firing, a new id
+                event._u_refire = False
+                self.events.append(event)
+                self.eid[id(event)] = len(self.events)
             e = self._eid(event)
             name = event.name
             kind, ref, v, d = 0, 0, 0, 0
@@ -341,9 +355,13 @@ class Universe:
         elif what == 'dispatch':
             self.current_event = event
             e = self._eid(event)
+            self.dstack.append((id(event), e))
             self.log.append(line('disp', e=e, c=self._cid(manager), f=1 if event.cancelled else 0, n=event.name))
         elif what == 'dispatched':
-            self.log.append(line('dend', e=self._eid(event), c=self._cid(manager), n=event.name,
+            e = self._eid_dispatching(event)
+            if self.dstack and self.dstack[-1][0] == id(event):
+                self.dstack.pop()
+            self.log.append(line('dend', e=e, c=self._cid(manager), n=event.name,
                                  f=1 if event.stopped else 0))
 
     # --------------------------------------------------------------- handlers
@@ -352,7 +370,7 @@ class Universe:
         return sc.get(event.name, [])
 
     def _run_handler(self, hid, comp, event, is_gen):
-        e = self._eid(event)
+        e = self._eid_dispatching(event)
         self.log.append(line('inv', e=e, h=hid, c=self._cid(comp), d=len(self.stack), n=event.name))
         script = self._script_for(hid, event)
         if is_gen and any(op[0] in ('yield', 'call', 'wait') for op in script):
@@ -442,6 +460,11 @@ class Universe:
             elif o == 'stop':
                 self.log.append(line('op', e=e, h=hid, n='stop'))
                 event.stop()
+            elif o == 'refire':
+                # the handler fires the very event object it is handling once more (forwarding it to another channel)
+                self.log.append(line('op', e=e, h=hid, n='fire'))
+                event._u_refire = True
+                comp.fire(event, self._chan_obj(op[1]))
             elif o == 'ret':
                 ret = 0 if op[1] == FALSY else op[1]
             elif o == 'raise':
@@ -694,6 +717,18 @@ class Universe:
         self.log.append(line('api', n='tick', c=cid))
         self.comps[cid].tick()
 
+    def api_rtick(self, cid):
+        """one iteration of the loop of a manager that counts as running, made by hand (what SimpleManager of the
+        repository's tests does): generate_events is fired, with no time to wait"""
+        root = self.comps[cid]
+        self.log.append(line('api', n='tick', c=cid))
+        was = root._running
+        root._running = True
+        try:
+            root.tick(0)
+        finally:
+            root._running = was
+
     # ------------------------------------------------------------ projection
     def project_structure(self):
         for cid, comp in sorted(self.comps.items()):
@@ -799,6 +834,8 @@ class Universe:
                         self.api_flush(op[1])
                     elif o == 'tick':
                         self.api_tick(op[1])
+                    elif o == 'rtick':
+                        self.api_rtick(op[1])
                     elif o == 'run':
                         self.api_run(op[1], *(op[2:3]))
                     elif o == 'stop':
